@@ -21,26 +21,28 @@ VARIABLES tid, verdict
 ToSet(s) == {s[i] : i \in DOMAIN s}
 
 \* walk the events; carry the registration history
-RECURSIVE Walk(_, _, _, _)
-Walk(ev, i, reg, dflt) ==
+\* dreg = registrations that associate the spec's own default function object (identity extension of CostLookup)
+IsDf(e) == "df" \in DOMAIN e /\ e.df
+RECURSIVE Walk(_, _, _, _, _)
+Walk(ev, i, reg, dreg, dflt) ==
     IF i > Len(ev) THEN "ok"
     ELSE LET e == ev[i] IN
          IF e.a = "reg"
          THEN IF <<e.ty, e.p>> \in Range(reg)
               THEN "trace: duplicate registration"
-              ELSE Walk(ev, i + 1, Append(reg, <<e.ty, e.p>>), dflt)
+              ELSE Walk(ev, i + 1, Append(reg, <<e.ty, e.p>>), IF IsDf(e) THEN dreg \cup {<<e.ty, e.p>>} ELSE dreg, dflt)
          ELSE \* "get"
               LET sat  == RefSat(e.d)      \* decided HERE from the logged layer description, not by the harness
-                  ref  == RefLookup(reg, e.ty, sat, dflt)
+                  ref  == RefLookupId(reg, dreg, e.ty, sat, dflt)      \* by the layer's OWN type; default object = default
                   obs  == e.res
               IN  IF obs = ref
-                  THEN Walk(ev, i + 1, reg, dflt)
+                  THEN Walk(ev, i + 1, reg, dreg, dflt)
                   ELSE IF obs = Scan("pinned", reg, e.ty, sat, dflt) /\ F15Signature(reg, e.ty, sat)
                        THEN "known:F15:lookup raises a conflict although only one constrained pattern matches (constrained registered before unconstrained)"
                        ELSE "C15.lookup event " \o ToString(i) \o ": observed " \o ToString(obs)
                                 \o " expected " \o ToString(ref)
 
-Check(t) == Walk(t.ev, 1, <<>>, t.dflt)
+Check(t) == Walk(t.ev, 1, <<>>, {}, t.dflt)
 
 Init == tid \in 1..Len(Traces) /\ verdict = Check(Traces[tid])
 Next == UNCHANGED <<tid, verdict>>
